@@ -217,7 +217,7 @@ class Supercell(PhonopyAtoms):
             )
         else:
             # In the new style, it is unnecessary to trim atoms,
-            if (np.diag(np.diagonal(mat)) != mat).any():
+            if (np.diag(np.diagonal(mat)) != mat).any() or (np.diagonal(mat) < 0).any():
                 snf = SNF3x3(mat)
                 snf.run()
                 P = snf.P
